@@ -104,6 +104,13 @@ def _draw_script(draw, model, ids, tag, n_min, n_max, symlinks, flat=False):
             op[5] = "%s new file %s\n" % (tag, op[1]) + (op[5] or "")
         tm.apply_op(model, op)
         ops.append(op)
+        if op[0] == "rename" and model[op[1]]["kind"] == "file" and \
+                draw(st.booleans()):
+            # renamed-and-modified
+            op2 = ["modify", op[1],
+                   _edit_text(draw, model[op[1]]["content"], tag)]
+            tm.apply_op(model, op2)
+            ops.append(op2)
     return ops
 
 
@@ -176,6 +183,7 @@ def gen_case(draw, fmt="2a"):
                                                  "unknown", "dir"])),
                            draw(st.integers(0, 30))]
                           for _ in range(draw(st.integers(1, 3)))]
+        case["shadow"] = draw(st.integers(0, 2)) == 0
         if cmd == "revert":
             case["all"] = draw(st.integers(0, 2)) == 0
             case["backups"] = draw(st.sampled_from([True, True, False]))
@@ -399,6 +407,17 @@ def run(case, env):
         created_by_merge = {p: c for p, c in after_merge.items()
                             if p not in before_merge}
     unknown_made = _apply_late(root, case, created_by_merge)
+    if case.get("shadow") and case.get("select"):
+        # unknown files sitting on the first backup name of the selected paths
+        wt = _open(root)
+        sel0 = _spec_paths(case, wt, root, base_model, local_model,
+                           unknown_made)
+        for i, p in enumerate(sel0):
+            ap = os.path.join(root, p + ".~1~")
+            if os.path.lexists(os.path.join(root, p)) and \
+                    not os.path.lexists(ap):
+                with open(ap, "wb") as f:
+                    f.write(b"shadow of %d\n" % i)
     bz.age_files(root)
 
     wt = _open(root)
